@@ -93,7 +93,22 @@ func TestC22(t *testing.T) {
 			scfg.NextProtos = []string{j.proto}
 			scfg.ClientAuth = tls.RequestClientCert
 			plan.ReadClientEE = true
-			plan.RewriteOut = rewriteEE(func(exts []wire.Ext) []wire.Ext { return setExt(exts, j.cp, serverSettings) })
+			// the order of extensions in EncryptedExtensions is the server's choice: ALPS after
+			// ALPN, before it, or the whole list shuffled
+			order := i % 3
+			plan.RewriteOut = rewriteEE(func(exts []wire.Ext) []wire.Ext {
+				switch order {
+				case 1:
+					return append([]wire.Ext{{Type: j.cp, Data: serverSettings}}, exts...)
+				case 2:
+					out := setExt(exts, j.cp, serverSettings)
+					rg2 := Sub("C22order", i)
+					rg2.Shuffle(len(out), func(a, b int) { out[a], out[b] = out[b], out[a] })
+					return out
+				}
+				return setExt(exts, j.cp, serverSettings)
+			})
+			r.Count(fmt.Sprintf("ee_order_variant_%d", order), 1)
 		case "noalpn":
 			scfg.NextProtos = nil // no ALPN negotiated
 			plan.RewriteOut = rewriteEE(func(exts []wire.Ext) []wire.Ext { return setExt(exts, j.cp, serverSettings) })
